@@ -159,7 +159,7 @@ def check(ctx):
     tmp = ctx.path("files")
     os.makedirs(tmp, exist_ok=True)
     nrand = 600 if quick else 30000
-    nfiles = 2 if quick else 12
+    nfiles = 3 if quick else 12   # three consecutive case numbers: one of them is a file that starts with a maximal message
     info = drive(binp, ["--scenarios", scn, "--reps", "1" if quick else "3", "--random", str(nrand), "--seed", str(ctx.seed),
                         "--files", str(nfiles), "--file-msgs", "128" if quick else "600", "--file-big", "4" if quick else "16",
                         "--adlt", adlt, "--tmp", tmp,
